@@ -296,7 +296,7 @@ def gen(ch, tier):
     dom, _ = G.gen_domain(ch, ft)
     pr = P.gen_problem(ch, dom, ternary_repeat=not ctx.active(F_TERN))
     case = {"dom": dom, "problem": pr, "corrupt": None,
-            "layout": [ch.int(0, 10) for _ in range(ch.int(0, 10))], "case_mode": ch.weighted([(6, 0), (1, 1), (1, 3)])}
+            "layout": [ch.int(0, 64) for _ in range(ch.int(0, 10))], "case_mode": ch.weighted([(6, 0), (1, 1), (1, 3)])}
     if ch.flag(0.55):
         c = gen_corruption(ch, dom, pr)
         try:
